@@ -7,7 +7,7 @@ from spec import step_model as M
 
 PROPERTY = "C05"
 BOUNDS = {
-    "quick": "(a1) selection logic: real get_protocol body with major, minor symbolic in [0,10^6], patch/build present or absent (symbolic values [0,999]), version parser replaced by a contract stub; (a2) end to end with the real AwesomeVersion on the realised grid major {0,1,2,3,10} x minor {0..6,9,10,11} x patch {absent,0,1,2,10} x build {absent,0,1} (750 texts); (b) 2-event histories of version reports (version reply / gateway presentation, 9 texts incl. rejected ones) from version unknown or known: reported version, active protocol and schema agree after every step, a rejected report changes nothing; (c) type gate: internal and stream type sym [-2,99999] per version against the table sizes of the MySensors serial API",
+    "quick": "(a1) selection logic: real get_protocol body with major, minor symbolic in [0,10^6], patch/build present or absent (symbolic values [0,999]), version parser replaced by a contract stub; (a2) end to end with the real AwesomeVersion on the realised grid major {0,1,2,3,10} x minor {0..6,9,10,11} x patch {absent,0,1,2,10} x build {absent,0,1} (750 texts); (b) 2-event histories of version reports (version reply / gateway presentation, 9 texts incl. rejected ones) from version unknown or known: reported version, active protocol and schema agree after every step, a rejected report changes nothing; (b2) the same agreement across leaving and re-entering the gateway context; (c) type gate: internal and stream type sym [-2,99999] per version against the table sizes of the MySensors serial API",
     "thorough": "as quick with 3-event histories and components in (a1) up to 10^9",
 }
 REALISED = ["(a2) the version grid is enumerated value by value (AwesomeVersion's regexes realise the text)", "(c) type numbers inside a table are one path per value, all numbers above the table are one symbolic path; negative numbers are realised"]
@@ -33,6 +33,7 @@ def partitions(tier):
         for first in range(len(REPORT_TEXTS)):
             parts.append({"name": "history-%s-%d" % ("known" if known else "unknown", first), "fn": "sym_history", "known": known, "first": first,
                           "steps": 2 if q else 3, "budget": 500 if q else 3000, "cost": 4})
+    parts.append({"name": "context", "fn": "sym_context", "budget": 400, "cost": 3})
     for v in VERSIONS:
         parts.append({"name": "gate-internal-%s" % v, "fn": "sym_gate", "version": v, "cmd": 3, "budget": 500, "cost": 4})
         parts.append({"name": "gate-stream-%s" % v, "fn": "sym_gate", "version": v, "cmd": 4, "budget": 300, "cost": 2})
@@ -166,6 +167,43 @@ def sym_history(inp, part):
     if kind == "err" and type(val).__name__ == "UnsupportedMessageError":
         raise Violation("history:rules-in-force", "internal type %d refused although active protocol should be %s" % (probe_t - 1, cur_proto))
     return ["history-ok", cur_proto]
+
+
+def _rules_match(gw, tr, what):
+    """Reported version and the rules actually in force agree ("1.4 while no version has been reported")."""
+    check_consistency(gw, what)
+    proto = M.version_to_proto(gw.protocol_version) if gw.protocol_version is not None else "1.4"
+    if gw.protocol.VERSION != proto:
+        raise Violation("%s:active-protocol" % what, "protocol_version=%r but the active protocol is %s" % (gw.protocol_version, gw.protocol.VERSION))
+    probe_t = M.INTERNAL_MAX[proto] + 1
+    for t, want_refused in ((probe_t, True), (probe_t - 1, False)):
+        tr.lines.append(M.line(0, 255, 3, 0, t, ""))
+        kind, val = listen_step(gw)
+        refused = kind == "err" and type(val).__name__ == "UnsupportedMessageError"
+        if refused != want_refused:
+            raise Violation("%s:rules-in-force" % what, "protocol_version=%r: internal type %d %s" % (gw.protocol_version, t, "refused" if refused else "accepted"))
+
+
+def sym_context(inp, part):
+    """Version reports inside 'async with gateway', leaving and re-entering the context."""
+    from harness.common import run
+
+    gw, tr = new_gateway(inp, None)
+    run(gw.__aenter__())
+    _rules_match(gw, tr, "context:entered")
+    text = REPORT_TEXTS[inp.pick("text", 7)]
+    tr.lines.append(M.line(0, 255, 3, 0, 2, text))
+    kind, val = listen_step(gw)
+    if kind != "msg":
+        raise Violation("context:good-report-rejected:%s" % type(val).__name__, str(val)[:150])
+    _rules_match(gw, tr, "context:reported")
+    run(gw.__aexit__(None, None, None))
+    _rules_match(gw, tr, "context:left")
+    if inp.bool("reenter"):
+        run(gw.__aenter__())
+        _rules_match(gw, tr, "context:re-entered")
+        run(gw.__aexit__(None, None, None))
+    return ["history-ok", text]
 
 
 def sym_gate(inp, part):
